@@ -160,7 +160,7 @@ def _task(t):
         _k, tkey, seed, lo, hi, k2 = t
         devs = deviate.module_devs(tkey, seed, spikes="all" if not k2 else "few", opt8="all" if not k2 else "few")
         if k2:
-            combos = [list(p) for p in list(deviate.pairs(devs))[lo:hi]]
+            combos = [list(p) for p in list(deviate.pairs(devs, common_pairs=(tkey == 'Amplifier')))[lo:hi]]
         else:
             combos = ([[]] + [[d] for d in devs])[lo:hi]
         cases = []
@@ -210,7 +210,7 @@ def run(ctx):
     if ctx.thorough:
         for k in tk:
             devs = deviate.module_devs(k, ctx.seed, spikes="few", opt8="few")
-            n = sum(1 for _ in deviate.pairs(devs))
+            n = sum(1 for _ in deviate.pairs(devs, common_pairs=(k == 'Amplifier')))
             for lo in range(0, n, 3000):
                 tasks.append(("moddevs", k, ctx.seed, lo, min(n, lo + 3000), True))
     from rvmc.runner import rotate
